@@ -111,23 +111,74 @@ theorem ext_newCore (cs : List Core) (x : Core) (hx : x.reqs = []) : Ext cs (cs 
 
 /-! ### the log -/
 
-/-- every fulfilment-callback event is justified: the callback belongs to a continuation attached to
-    a core that is fulfilled with exactly the logged value, and that continuation's counter is spent -/
-def LogOK (cs : List Core) (log : List Ev) : Prop :=
-  ∀ cb a, Ev.call cb a ∈ log → ∃ c i r ret rej, rq cs c i = some r ∧ r.kind = .user cb ret rej ∧ stOf cs c = .fulfilled a ∧ 1 ≤ r.rc
+/-- every callback event of the log is justified:
+    * a fulfilment callback belongs to a continuation attached to a core that IS fulfilled with exactly the logged
+      value, and that continuation's resolve counter is spent;
+    * a custom rejection handler belongs to a continuation whose reject counter is spent, and the logged exception is
+      the exception of the core it is attached to (0, the null exception, when that core is pending: a rejection that
+      an upstream ignore/custom handler of a value-returning continuation swallowed — as the code is) -/
+structure LogOK (cs : List Core) (log : List Ev) : Prop where
+  calls : ∀ cb a, Ev.call cb a ∈ log → ∃ c i r ret rej, rq cs c i = some r ∧ r.kind = .user cb ret rej ∧ stOf cs c = .fulfilled a ∧ 1 ≤ r.rc
+  rejs : ∀ cb e, Ev.callRej cb e ∈ log → ∃ c i r cb0 ret, rq cs c i = some r ∧ r.kind = .user cb0 ret (.custom cb) ∧ (stOf cs c).exc = e ∧ 1 ≤ r.jc
+
+/-- the exception seen through a spent continuation does not change any more -/
+theorem exc_ext {cs cs' : List Core} (e : Ext cs cs') {c i : Nat} {r : Req} (hr : rq cs c i = some r) (hs : r.settler = true) (hj : 1 ≤ r.jc) :
+    (stOf cs' c).exc = (stOf cs c).exc := by
+  by_cases hp : stOf cs c = .pending
+  · rw [e.doom c i r hr hs hj hp, hp]
+  · rw [e.stable c hp]
+
+theorem settler_of_user_kind {r : Req} {cb : Nat} {ret : Ret} {rej : Rej} (hk : r.kind = .user cb ret rej) : r.settler = true := by
+  unfold Req.settler Req.isUser; rw [hk]; rfl
 
 theorem logOK_ext {cs cs' : List Core} {log : List Ev} (e : Ext cs cs') (h : LogOK cs log) : LogOK cs' log := by
-  intro cb a hm
-  obtain ⟨c, i, r, ret, rej, hr, hk, hst, hrc⟩ := h cb a hm
-  obtain ⟨x, hx, hxk, _, hxr, _⟩ := e.fwd c i r hr
-  exact ⟨c, i, x, ret, rej, hx, by rw [hxk, hk], by rw [e.stable c (by rw [hst]; simp), hst], by omega⟩
+  refine ⟨?_, ?_⟩
+  · intro cb a hm
+    obtain ⟨c, i, r, ret, rej, hr, hk, hst, hrc⟩ := h.calls cb a hm
+    obtain ⟨x, hx, hxk, _, hxr, _⟩ := e.fwd c i r hr
+    exact ⟨c, i, x, ret, rej, hx, by rw [hxk, hk], by rw [e.stable c (by rw [hst]; simp), hst], by omega⟩
+  · intro cb ex hm
+    obtain ⟨c, i, r, cb0, ret, hr, hk, hst, hjc⟩ := h.rejs cb ex hm
+    obtain ⟨x, hx, hxk, _, _, hxj⟩ := e.fwd c i r hr
+    exact ⟨c, i, x, cb0, ret, hx, by rw [hxk, hk], by rw [exc_ext e hr (settler_of_user_kind hk) hjc, hst], by omega⟩
 
-theorem logOK_append_other {cs : List Core} {log : List Ev} (ev : Ev) (hne : ∀ cb a, ev ≠ .call cb a) (h : LogOK cs log) :
-    LogOK cs (log ++ [ev]) := by
-  intro cb a hm
-  rcases List.mem_append.mp hm with hm | hm
-  · exact h cb a hm
-  · simp only [List.mem_singleton] at hm; exact absurd hm.symm (hne cb a)
+theorem logOK_append_other {cs : List Core} {log : List Ev} (ev : Ev) (hne : ∀ cb a, ev ≠ .call cb a) (hne' : ∀ cb e, ev ≠ .callRej cb e)
+    (h : LogOK cs log) : LogOK cs (log ++ [ev]) := by
+  refine ⟨?_, ?_⟩
+  · intro cb a hm
+    rcases List.mem_append.mp hm with hm | hm
+    · exact h.calls cb a hm
+    · simp only [List.mem_singleton] at hm; exact absurd hm.symm (hne cb a)
+  · intro cb e hm
+    rcases List.mem_append.mp hm with hm | hm
+    · exact h.rejs cb e hm
+    · simp only [List.mem_singleton] at hm; exact absurd hm.symm (hne' cb e)
+
+theorem logOK_append_call {cs : List Core} {log : List Ev} (cb : Nat) (a : Int) (h : LogOK cs log)
+    (w : ∃ c i r ret rej, rq cs c i = some r ∧ r.kind = .user cb ret rej ∧ stOf cs c = .fulfilled a ∧ 1 ≤ r.rc) :
+    LogOK cs (log ++ [.call cb a]) := by
+  refine ⟨?_, ?_⟩
+  · intro cb' a' hm
+    rcases List.mem_append.mp hm with hm | hm
+    · exact h.calls cb' a' hm
+    · simp only [List.mem_singleton] at hm; cases hm; exact w
+  · intro cb' e hm
+    rcases List.mem_append.mp hm with hm | hm
+    · exact h.rejs cb' e hm
+    · simp only [List.mem_singleton] at hm; cases hm
+
+theorem logOK_append_rej {cs : List Core} {log : List Ev} (cb : Nat) (e : Nat) (h : LogOK cs log)
+    (w : ∃ c i r cb0 ret, rq cs c i = some r ∧ r.kind = .user cb0 ret (.custom cb) ∧ (stOf cs c).exc = e ∧ 1 ≤ r.jc) :
+    LogOK cs (log ++ [.callRej cb e]) := by
+  refine ⟨?_, ?_⟩
+  · intro cb' a' hm
+    rcases List.mem_append.mp hm with hm | hm
+    · exact h.calls cb' a' hm
+    · simp only [List.mem_singleton] at hm; cases hm
+  · intro cb' e' hm
+    rcases List.mem_append.mp hm with hm | hm
+    · exact h.rejs cb' e' hm
+    · simp only [List.mem_singleton] at hm; cases hm; exact w
 
 variable {roots : List Nat}
 
@@ -187,14 +238,14 @@ theorem sound_resolverOn {m m1 : M} (c : Nat) (v : Int) (e1 : Ext m.cores m1.cor
   unfold resolverOn
   split
   · rename_i hst; exact sound_of e1 l1 (ext_fulfilAndWalk m1 c v hst (hns hst)) rfl
-  · exact ⟨e1, logOK_append_other _ (by intro cb a h; cases h) l1⟩
+  · exact ⟨e1, logOK_append_other _ (by intro cb a h; cases h) (by intro cb a h; cases h) l1⟩
 
 theorem sound_rejectionOn {m m1 : M} (c : Nat) (e : Nat) (e1 : Ext m.cores m1.cores) (l1 : LogOK m1.cores m1.log)
     (hns : Pending m1.cores c → NoSpent m1.cores c) : Sound m (rejectionOn m1 c e) := by
   unfold rejectionOn
   split
   · rename_i hst; exact sound_of e1 l1 (ext_rejectAndWalk m1 c e hst (hns hst)) rfl
-  · exact ⟨e1, logOK_append_other _ (by intro cb a h; cases h) l1⟩
+  · exact ⟨e1, logOK_append_other _ (by intro cb a h; cases h) (by intro cb a h; cases h) l1⟩
 
 theorem sound_stepResolve (m : M) (c i : Nat) (h : Own roots m) (hf : Fulfilled m.cores c) (hl : LogOK m.cores m.log) :
     Sound m (stepResolve m c i) := by
@@ -241,13 +292,8 @@ theorem sound_stepResolve (m : M) (c i : Nat) (h : Own roots m) (hf : Fulfilled 
       | user cb ret rej =>
         have hu : r.isUser = true := isUser_of_kind hk
         -- the new log entry is justified by (c, i)
-        have l2 : LogOK m1.cores (m1.log ++ [.call cb v0]) := by
-          intro cb' a hm
-          rcases List.mem_append.mp hm with hm | hm
-          · exact l1 cb' a hm
-          · simp only [List.mem_singleton] at hm
-            cases hm
-            exact ⟨c, i, r', ret, rej, hget1, by rw [hk', hk], hst1, by omega⟩
+        have l2 : LogOK m1.cores (m1.log ++ [.call cb v0]) :=
+          logOK_append_call cb v0 l1 ⟨c, i, r', ret, rej, hget1, by rw [hk', hk], hst1, by omega⟩
         simp only
         cases ret with
         | value d =>
@@ -297,7 +343,8 @@ theorem sound_stepReject (m : M) (c i : Nat) (h : Own roots m) (hrej : RejOK m.c
       have hjc : r.jc = 0 := by omega
       have hget : rq m.cores c i = some r := hget
       have hnor : r.settler = true → ¬ 1 ≤ r.rc := fun hs hj => fulfilled_not_rejOK (h.c.rcOK c i r hget hs hj) hrej
-      generalize (m.core c).st.exc = e
+      obtain ⟨e, he⟩ : ∃ e, e = (m.core c).st.exc := ⟨_, rfl⟩
+      rw [← he]
       obtain ⟨r', hr'⟩ : ∃ r', r' = ({ r with jc := r.jc + 1 } : Req) := ⟨_, rfl⟩
       have hk' : r'.kind = r.kind := by rw [hr']
       have hch' : r'.chain = r.chain := by rw [hr']
@@ -312,6 +359,8 @@ theorem sound_stepReject (m : M) (c i : Nat) (h : Own roots m) (hrej : RejOK m.c
       have l1 : LogOK m1.cores m1.log := by rw [hlog1]; exact logOK_ext e1 hl
       have hpend1 : ∀ d, Pending m.cores d → Pending m1.cores d := by intro d hp; rw [hm1]; exact pending_of_st (u.st _) hp
       have hpend0 : ∀ d, Pending m1.cores d → Pending m.cores d := by intro d hp; rw [hm1] at hp; exact pending_of_st (u.st _).symm hp
+      have hget1 : rq m1.cores c i = some r' := by rw [hm1]; exact u.new
+      have hexc1 : (stOf m1.cores c).exc = e := by rw [hm1, he]; exact congrArg St.exc (u.st c)
       have hns1 : ∀ d, Pending m.cores d → ¬ Doomed m.cores d → NoSpent m1.cores d := by
         intro d hp hnd; rw [hm1]; exact noSpent_after h.c u hk' hch' (by omega) (by omega) hp hnd (fun _ => hrej)
       have hroot : ∀ d, d < m.datas.length → Pending m1.cores (m.data d).target → NoSpent m1.cores (m.data d).target := by
@@ -337,7 +386,8 @@ theorem sound_stepReject (m : M) (c i : Nat) (h : Own roots m) (hrej : RejOK m.c
           | void => exact ⟨e1, l1⟩
           | promise q => exact ⟨e1, l1⟩
         | custom cb' =>
-          have l2 : LogOK m1.cores (m1.log ++ [.callRej cb' e]) := logOK_append_other _ (by intro cb a hh; cases hh) l1
+          have l2 : LogOK m1.cores (m1.log ++ [.callRej cb' e]) :=
+            logOK_append_rej cb' e l1 ⟨c, i, r', cb, ret, hget1, by rw [hk', hk], hexc1, by omega⟩
           cases ret with
           | value d => exact ⟨e1, l2⟩
           | void => exact ⟨e1, l2⟩
